@@ -6,6 +6,7 @@ ff1x, ff1y, ff1z (arctan2 sums) and ff2x, ff2y, ff2z (log terms), as one functio
 (arctan2 is a parameter: the theorems hold for every function in its place; np.log -> ln, np.sqrt -> sqrt), and
 the table that says which term, with which sign and which entry of `qsigns`, feeds which field component:
     cuboid_contrib : list (nat * nat * bool * nat)      (polarization axis, field axis, negated, term index)
+and the three literal sign tables of the octant flips, qs_flipx / qs_flipy / qs_flipz : list (list Z).
 Also checked (not translated): x, y, z, a, b, c are bound once from the inputs and only modified by the octant
 flips `v[mask] = v[mask] * -1`; the three masks are `x < 0`, `y > 0`, `z > 0`; B is divided by 4*pi.
 Anything else in the function raises Untranslatable.
@@ -128,6 +129,25 @@ def generate(repo):
         raise Untranslatable(f"inputs changed: {bound}")
     if "B /= 4 * np.pi" not in tail:
         raise Untranslatable("normalisation B /= 4*pi not found")
+    # the sign tables of the octant flips: literal 3x3 matrices of +-1, applied as qsigns[mask] = qsigns[mask] * qs_flip
+    mats = {}
+    for f in flips:
+        for ax in "xyz":
+            pre = f"qs_flip{ax} = np.array("
+            if f.startswith(pre):
+                try:
+                    m = ast.literal_eval(f[len(pre):-1])
+                except (ValueError, SyntaxError) as e:
+                    raise Untranslatable(f"qs_flip{ax} is not a literal matrix: {e}") from e
+                if not (isinstance(m, list) and len(m) == 3 and all(isinstance(r, list) and len(r) == 3 and
+                                                                     all(v in (1, -1) for v in r) for r in m)):
+                    raise Untranslatable(f"qs_flip{ax} is not a 3x3 matrix of +-1: {m}")
+                mats[ax] = m
+    if sorted(mats) != ["x", "y", "z"]:
+        raise Untranslatable(f"flip sign tables not found: {sorted(mats)}")
+    want_q = ["qsigns = np.ones((len(pol_x), 3, 3))"] + [f"qsigns[mask{ax}] = qsigns[mask{ax}] * qs_flip{ax}" for ax in "xyz"]
+    if [f for f in flips if f.startswith("qsigns")] != want_q:
+        raise Untranslatable(f"application of the flip sign tables changed: {[f for f in flips if f.startswith('qsigns')]}")
     for t in TERMS:
         if t not in known:
             raise Untranslatable(f"term {t} not found")
@@ -163,4 +183,11 @@ def generate(repo):
     out.append("(* (polarization axis, field axis, negated, index of the term in cuboid_ff) *)")
     out.append("Definition cuboid_contrib : list (nat * nat * bool * nat) :=")
     out.append("  [" + "; ".join(f"({k}, {j}, {'true' if n else 'false'}, {t})%nat" for k, j, n, t in sorted(table)) + "].")
+    out.append("")
+    out.append("(* sign tables of the octant flips (rows: polarization axis, columns: field axis); the observer is mirrored")
+    out.append("   x -> -x where x < 0, y -> -y where y > 0, z -> -z where z > 0, and qsigns is the product of the tables of")
+    out.append("   the mirrors that were applied *)")
+    for ax in "xyz":
+        rows = "; ".join("[" + "; ".join(f"({v})%Z" if v < 0 else f"{v}%Z" for v in r) + "]" for r in mats[ax])
+        out.append(f"Definition qs_flip{ax} : list (list BinNums.Z) := [{rows}].")
     return "\n".join(out) + "\n"
